@@ -9,10 +9,10 @@ PID = "C07"
 THEOREMS = [
     "c07_conduct_step_bound", "c07_conduct_terminates_partial", "c07_cleanup_twice",
     "c07_no_scene_after_cancel_partial", "c07_no_survivor_in_group", "c07_redirected_command_partial",
-    "c07_scene_barrier_completes",
+    "c07_scene_barrier_completes", "c07_scene_collect_never_blocks",
 ]
 REFUTED = ["c07_conduct_terminates_refuted", "c07_redirected_command_not_interruptible_refuted",
-           "c07_scene_barrier_needs_refusal_done"]
+           "c07_scene_barrier_needs_refusal_done", "c07_scene_collect_needs_report_first"]
 HEADER = "From Shk Require Import Base.Prelude Model.Conduct Corr.C04 Corr.C07.\nOpen Scope Z_scope.\n"
 QUERIES = [
     ("Mfault", "bad_indices c07_model_bad fault_cases"),
@@ -54,9 +54,11 @@ def report_stop(res, summary, vals):
     stops = summary.get("stop_cases") or []
     for idx in vals.get("Ostop", [])[:1]:
         sc = stops[idx]
-        what = ("runScene on a %d-line scene with a quiescing stopper" % sc["NLines"]) if sc["Kind"] == 0 else \
-               ("prompt, termination requested when scene %d of %d is announced" % (sc["K"], sc["NScenes"]))
-        res.violation("c07-prompter-wedged-when-stopper-refuses-line-tasks",
+        what = {0: "runScene on a %d-line scene with a quiescing stopper" % sc["NLines"],
+                1: "prompt, termination requested when scene %d of %d is announced" % (sc["K"], sc["NScenes"]),
+                2: "runScene on %d mood-only line(s), audition not receiving, context cancelled" % sc["NLines"],
+                3: "prompt on mood-only scenes, audition stops receiving after %d event(s), context cancelled" % sc["K"]}[sc["Kind"]]
+        res.violation("c07-prompter-wedged-when-stopper-refuses-line-tasks" if sc["Kind"] <= 1 else "c07-prompter-wedged-on-a-cancelled-mood-change",
                       "%s (storyline %s): returned=%s err=%r fired=%s after %d ms" % (
                           what, sc["Story"], sc["Res"]["Returned"], sc["Res"]["Err"][:80], sc["Res"]["Fired"], sc["Res"]["ElapsedMs"]),
                       {"kind": "failing-input", "input": sc,
@@ -121,7 +123,7 @@ def run(tier, seed):
     res.coverage.update({
         "evaluations": summary["plays"],
         "distinct_nontrivial": summary["distinct_nontrivial"],
-        "rule": "one play of the 3-scene script `abc ..........` (2 actors, 2 spotlights, 1 auditor) per (fault kind, position / instant): none; action fails at a/b/c; spotlight fails at 0/130/260 ms; spotlight ignores SIGHUP (leader / child / background child); cleanup fails 1st / 2nd time; audit foul with -S at a/b/c; expression error with / without -S; SIGINT / SIGTERM at 7 instants; SIGINT / SIGTERM while a 3 s action runs (cast with / without spotlights); a spotlight whose leader ignores SIGHUP with the play ended by SIGINT / SIGTERM; -S foul during a long action with a chatty spotlight; the real runScene / prompt under a quiescing stopper (hook); a command that never ends (sleep 300) while the play is stopped by SIGINT / SIGTERM / a failing peer / a failing spotlight / a foul, and a cleanup that never ends 1st / 2nd time (quick: a random subset of positions and instants, 2 of the never-ending ones); non-trivial = every injected fault; distinct by (fault, position)",
+        "rule": "one play of the 3-scene script `abc ..........` (2 actors, 2 spotlights, 1 auditor) per (fault kind, position / instant): none; action fails at a/b/c; spotlight fails at 0/130/260 ms; spotlight ignores SIGHUP (leader / child / background child); cleanup fails 1st / 2nd time; audit foul with -S at a/b/c; expression error with / without -S; SIGINT / SIGTERM at 7 instants; SIGINT / SIGTERM while a 3 s action runs (cast with / without spotlights); a spotlight whose leader ignores SIGHUP with the play ended by SIGINT / SIGTERM; -S foul during a long action with a chatty spotlight; the real runScene / prompt under a quiescing stopper and on mood-only lines with a dead audition and a cancelled context (hooks); a no-actor play of mood-only scenes with 400 auditors fouled under -S; a command that never ends (sleep 300) while the play is stopped by SIGINT / SIGTERM / a failing peer / a failing spotlight / a foul, and a cleanup that never ends 1st / 2nd time (quick: a random subset of positions and instants, 2 of the never-ending ones); non-trivial = every injected fault; distinct by (fault, position)",
         "samples": summary["samples"],
         "distribution": summary["distribution"],
         "traces_validated_against_impl": summary["plays"],
